@@ -150,32 +150,25 @@ func (chain *Blockchain) Extends(block, target *hotstuff.Block) bool {
 }
 
 // PruneToHeight prunes the blockchain to the given height.
-func (chain *Blockchain) PruneToHeight(committedHeight, height hotstuff.View) (forkedBlocks []*hotstuff.Block) {
+// It returns the blocks between the previous prune height and the given height
+// that are not on the chain ending in the committed block.
+func (chain *Blockchain) PruneToHeight(committed *hotstuff.Block, height hotstuff.View) (forkedBlocks []*hotstuff.Block) {
 	chain.mut.Lock()
 	defer chain.mut.Unlock()
 
-	committedViews := make(map[hotstuff.View]bool)
-	committedViews[committedHeight] = true
-	for h := committedHeight; h >= chain.pruneHeight; {
-		block, ok := chain.blockAtHeight[h]
-		if !ok {
-			break
-		}
-		parent, ok := chain.blocks[block.Parent()]
-		if !ok || parent.View() < chain.pruneHeight {
-			break
-		}
-		h = parent.View()
-		committedViews[h] = true
+	// follow the parent links from the committed block; blockAtHeight cannot be used
+	// for this since it only remembers the most recently stored block of each view.
+	committedBlocks := make(map[hotstuff.Hash]bool)
+	for block, ok := committed, committed != nil; ok && block.View() >= chain.pruneHeight; {
+		committedBlocks[block.Hash()] = true
+		block, ok = chain.blocks[block.Parent()]
 	}
 
 	for h := height; h > chain.pruneHeight; h-- {
-		if !committedViews[h] {
-			block, ok := chain.blockAtHeight[h]
-			if ok {
-				chain.logger.Debugf("PruneToHeight: found forked block: %v", block)
-				forkedBlocks = append(forkedBlocks, block)
-			}
+		block, ok := chain.blockAtHeight[h]
+		if ok && !committedBlocks[block.Hash()] {
+			chain.logger.Debugf("PruneToHeight: found forked block: %v", block)
+			forkedBlocks = append(forkedBlocks, block)
 		}
 		delete(chain.blockAtHeight, h)
 	}
